@@ -67,6 +67,9 @@ def data_shapes(quick):
         # a data set obtained by slicing / masking a longer one
         out.append(dict(n=3, layout="short", err="hetero", unit="km/s", tref=False, sliced="slice"))
         out.append(dict(n=5, layout="long", err="uniform", unit="m/s", tref=False, sliced="mask"))
+        # epochs handed over as plain arrays (BMJD): float64, and integer-dtype whole-day stamps with a fractional explicit t_ref
+        out.append(dict(n=5, layout="short", err="hetero", unit="km/s", tref=True, tform="int"))
+        out.append(dict(n=3, layout="long", err="uniform", unit="m/s", tref=False, tform="float"))
     else:
         for N in Ns:
             for layout in ("short", "long", "repeat"):
@@ -87,6 +90,9 @@ def data_shapes(quick):
             out.append(dict(n=N, layout=layout, err=err, unit=unit, tref=tref, raw=raw, container=cont))
         for N, layout, err, unit, sl in ((3, "short", "hetero", "km/s", "slice"), (5, "long", "uniform", "m/s", "mask"), (8, "short", "uniform", "km/s", "slice"), (2, "repeat", "large", "m/s", "mask")):
             out.append(dict(n=N, layout=layout, err=err, unit=unit, tref=False, sliced=sl))
+        for N, layout, err, unit, tref, tf in ((5, "short", "hetero", "km/s", True, "int"), (3, "long", "uniform", "m/s", False, "float"), (8, "long", "hetero", "m/s", True, "int"),
+                                               (2, "short", "uniform", "km/s", True, "float"), (5, "repeat", "large", "km/s", False, "int")):
+            out.append(dict(n=N, layout=layout, err=err, unit=unit, tref=tref, tform=tf))
     return out
 
 
@@ -126,7 +132,7 @@ def run_config(cfg, shapes, quick, seed, part, full_grid_shapes=()):
         if sh["n"] < cfg["n_offsets"] + 1:
             continue
         t_ref = pb.shape_tref(sh, cfg["n_offsets"])
-        data, dd = pb.make_data(n=sh["n"], raw=sh.get("raw", "clean"), container=sh.get("container", "list"), sliced=sh.get("sliced", False), layout=sh["layout"], err=sh["err"], unit=sh["unit"], t_ref=t_ref, seed=seed,
+        data, dd = pb.make_data(n=sh["n"], raw=sh.get("raw", "clean"), container=sh.get("container", "list"), sliced=sh.get("sliced", False), tform=sh.get("tform", "time"), layout=sh["layout"], err=sh["err"], unit=sh["unit"], t_ref=t_ref, seed=seed,
                                 n_surveys=cfg["n_offsets"] + 1, t_ref_scale=("utc" if sh["n"] % 2 else "tcb"), interleave=(not sh["tref"]), mixed_units=bool(sh["tref"]))
         problem = pb.ref_problem(dd, dec)
         sigbar = float(np.mean(dd["sig"]))
@@ -208,7 +214,7 @@ def run_case(case, part):
     cfg, sh = case["cfg"], case["shape"]
     prior, dec = pb.make_prior(cache=False, **prior_kwargs(cfg))
     t_ref = pb.shape_tref(sh, cfg["n_offsets"])
-    data, dd = pb.make_data(n=sh["n"], raw=sh.get("raw", "clean"), container=sh.get("container", "list"), sliced=sh.get("sliced", False), layout=sh["layout"], err=sh["err"], unit=sh["unit"], t_ref=t_ref, seed=case.get("seed", 0),
+    data, dd = pb.make_data(n=sh["n"], raw=sh.get("raw", "clean"), container=sh.get("container", "list"), sliced=sh.get("sliced", False), tform=sh.get("tform", "time"), layout=sh["layout"], err=sh["err"], unit=sh["unit"], t_ref=t_ref, seed=case.get("seed", 0),
                             n_surveys=cfg["n_offsets"] + 1, t_ref_scale=("utc" if sh["n"] % 2 else "tcb"), interleave=(not sh["tref"]), mixed_units=bool(sh["tref"]))
     theta = np.atleast_2d(np.array(case["theta"], dtype=float))
     impl = np.array(tj.TheJoker(prior).marginal_ln_likelihood(data, pb.make_samples(theta), in_memory=True))
